@@ -18,6 +18,8 @@ claimed = {
    text="Proof (printer half) that FTypeToGo and its helpers emit, for every FType value, exactly the Go type text the documentation defines (go_type in specs/types.spec). The parser half (parseType builds the FType the grammar prescribes) is not decided and the evidence says so."),
  "C16": dict(design="§4 C16", technique="contract-based deductive verification: loop variants and progress/extent postconditions on every scanner and tokenizer loop of fc/wrapper.go over byte-array strings, VCs discharged by z3/cvc5; counterexample (byte string, position) read from the model with get-value and replayed on the real scanner with a wall-clock bound",
    text="Partial: proof that every scanner/tokenizer loop of wrapper.go terminates and makes progress on every byte string and keeps token extents inside the buffer. Termination of the recursive-descent parser and of type inference is not decided (two known non-terminating inputs are listed as findings in DESIGN.md)."),
+ "C18": dict(design="§4 C18", technique="contract-based deductive verification of the generated Go of build_sample_md: convOne / processListFile against the documented README template over SMT strings and an abstract file system; closures passed to slice.Map are handled through the callee's functional + panic contract; VCs discharged by z3/cvc5; failing inputs replayed by running the real tool on real files",
+   text="Proof that convOne returns exactly the documented section and panics exactly when the listed file is unreadable, and that processListFile writes header + one section per non-empty list line, in order, to README.md next to the list file, touching no other path, and leaves the file system untouched on any failure. Go's strings.Split/SplitN, os.ReadFile/WriteFile and path/filepath are assumed contracts."),
 }
 na = {
  "C01": "whole-compiler semantic preservation needs a formal semantics of Folang and of Go plus a simulation proof through tokenizer, parser, inference and emitter; no function-level contract expresses it (DESIGN §5). Its run-time ingredients are decided under C10, C12-C14.",
